@@ -319,8 +319,9 @@ fn parse_core(s: &str, allow_hyphenless: bool) -> Option<(Denoted, bool)> {
     Some((Denoted { major: nums[0], minor: nums[1], patch: nums[2], pre, build }, used_hyphenless))
 }
 
+/// "blank" in the POSIX sense: space and horizontal tab (line breaks are not blanks)
 fn is_blank(c: char) -> bool {
-    c == ' ' || c == '\t' || c == '\n' || c == '\r'
+    c == ' ' || c == '\t'
 }
 
 /// Three-class verdict for `Version::parse(s)`.
